@@ -4,7 +4,7 @@ library objects and render the same canonical observation line; evaluate the pro
 Only API-level things are read: `tm.triggers` (objects, in list order), `trigger.trigger_id`, `tm.trigger_display_order`,
 `effect.effect_type` / `effect.trigger_id`, returned objects (by identity), ok/error.
 """
-import contextlib, io, re
+import contextlib, io, os, re
 
 from harness import common
 
@@ -26,6 +26,17 @@ class Lib:
         self._deps = False
         self.ACT = int(EffectId.ACTIVATE_TRIGGER)
         self.DEACT = int(EffectId.DEACTIVATE_TRIGGER)
+        # which effect types ARE the (de)activation effects is a fact of the file format: taken from the names in the newest
+        # version's effects.json (an independent copy of that fact) when it can be read; the enum is only the fallback
+        try:
+            import glob, json
+            vdir = os.path.join(common.REPO, "AoE2ScenarioParser", "versions", "DE")
+            newest = sorted(glob.glob(os.path.join(vdir, "v*")), key=lambda d: [int(x) for x in os.path.basename(d)[1:].split(".")])[-1]
+            names = {v.get("name"): int(k) for k, v in json.load(open(os.path.join(newest, "effects.json"))).items()}
+            if "activate_trigger" in names and "deactivate_trigger" in names:
+                self.ACT, self.DEACT = names["activate_trigger"], names["deactivate_trigger"]
+        except Exception:
+            pass
 
     @classmethod
     def get(cls):
